@@ -12,3 +12,5 @@ import TradingVerif.Props.C06
 #print axioms TV.earlier_time_rejected
 #print axioms TV.margin_earns_nothing
 #print axioms TV.accrue_split
+#print axioms TV.tiny_rate_still_earns
+#print axioms TV.tiny_rate_still_charges
